@@ -300,16 +300,22 @@ pub fn check_c02(zoo: &Zoo, ei: usize, v: &Value, note: &mut Vec<&'static str>) 
             return Ok(None);
         }
     };
-    let (bytes, bit_len) = match encode(e, &*built) {
-        Enc::Ok { bytes, bit_len } => (bytes, bit_len),
+    // (the documented refusal of 'first addition absent, later present' (C03) leaves only the reader
+    // half of the property: a peer may send that canonical encoding)
+    let written = match encode(e, &*built) {
+        Enc::Ok { bytes, bit_len } => Some((bytes, bit_len)),
         Enc::Err("ExtensionFieldsInconsistent") => {
             note.push("refused:ExtensionFieldsInconsistent");
-            return Ok(None);
+            None
         }
         Enc::Err(k) => return Err((format!("refused-in-profile:{k}"), format!("{}: the writer refuses a value inside the profile with {k}", e.id()))),
         Enc::Panic(p) => return Err((format!("encode-panic:{}", panic_class(&p)), format!("{}: the writer panicked on a value inside the profile: {p}", e.id()))),
     };
-    let got: Vec<bool> = bits_of(&bytes).into_iter().take(bit_len).collect();
+    let got: Vec<bool> = match &written {
+        Some((bytes, bit_len)) => bits_of(bytes).into_iter().take(*bit_len).collect(),
+        None => want.clone(),
+    };
+    let bit_len = got.len();
     if got != want {
         let first = got.iter().zip(want.iter()).position(|(a, b)| a != b).unwrap_or(got.len().min(want.len()));
         let show = |b: &[bool]| {
